@@ -8,6 +8,14 @@ use tokio::{
 
 use super::ModuleContext;
 
+/// The number of tasks the runtime polls before it returns to the `block_on` future.
+///
+/// Each event of a module is executed as one `block_on` call that ends as soon as its
+/// future is polled a second time (see `Harness::exec`). All tasks that are runnable
+/// must be polled before that happens, else they would only continue at the next event
+/// of the module, at a later simulation time. Tokio's default of 61 is thus too small.
+const EVENT_INTERVAL: u32 = u32::MAX;
+
 pub(crate) struct AsyncCoreExt {
     pub(crate) rt: Rt,
     pub(crate) driver: Option<Driver>,
@@ -67,6 +75,7 @@ impl AsyncCoreExt {
         self.rt = Rt::Runtime((
             Arc::new(
                 Builder::new_current_thread()
+                    .event_interval(EVENT_INTERVAL)
                     .rng_seed(RngSeed::from_bytes(&random::<u64>().to_le_bytes()))
                     .build()
                     .expect("Failed to build tokio runtime"),
@@ -84,6 +93,7 @@ impl Rt {
                 *self = Rt::Runtime((
                     Arc::new(
                         builder
+                            .event_interval(EVENT_INTERVAL)
                             .rng_seed(seed)
                             .build()
                             .expect("Failed to build tokio runtime"),
